@@ -31,7 +31,7 @@ def finalStep (st : FinalState) (tok : List String) : Option (FinalState × Stri
       -- new resources are popped FIFO and each inserted at the head of the arena's occupied list
       let sounds := st.pending.foldl (fun acc f => f :: acc) st.sounds
       let bus := finalBus sounds
-      let chunks := chunkSizes st.ibs (frames + 1) frames
+      let chunks := finalChunkSizes st.ibs (frames + 1) frames
       let samples := chunks.flatMap (fun n => convertChunk ch (List.replicate n bus))
       pure ({ st with sounds := sounds, pending := [] }, String.intercalate " " (samples.map show32))
   | _ => none
